@@ -150,7 +150,14 @@ def _verify_one(args):
         for q, c in reg.contracts.items():
             if c.inline:
                 eng.inline_ok.add(q)
-        rep = eng.verify(qualname)
+        c0 = reg.contracts.get(qualname)
+        by_variant = bool(c0 is not None and c0.variants and c0.extra.get("shard_by") == "variant" and nshards > 1)
+        if by_variant:
+            # each shard executes and discharges its own contract variants (the symbolic execution is the expensive part)
+            rep = eng.verify(qualname, only_variants=[v for v in range(len(c0.variants)) if v % nshards == shard])
+            shard, nshards = 0, 1
+        else:
+            rep = eng.verify(qualname)
         obs = []
         t_start = time.time()
         func_budget = float(os.environ.get("PYVC_FUNC_BUDGET_S", "240"))
